@@ -529,7 +529,7 @@ func hostileTransfer(r *RNG, src string, port int) (string, bool) {
 		rep, ok = ctl.request(10, hotline.TranDownloadFldr, 5*time.Second, fld(hotline.FieldFileName, []byte("dir")))
 	case 5, 6: // folder upload
 		rep, ok = ctl.request(10, hotline.TranUploadFldr, 5*time.Second, fld(hotline.FieldFileName, []byte("fu"+name)), fld(hotline.FieldFilePath, encPath("Uploads")),
-			fld(hotline.FieldTransferSize, be32(1000)), fld(hotline.FieldFolderItemCount, be16(r.Pick(1, 2, 3))))
+			fld(hotline.FieldTransferSize, be32(1000)), fld(hotline.FieldFolderItemCount, be16(1)))
 	}
 	if !ok || rep == nil || rep.ErrorCode != [4]byte{} {
 		return fmt.Sprintf("xfer/%d/no-ref", kind), false
@@ -589,8 +589,8 @@ func hostileTransfer(r *RNG, src string, port int) (string, bool) {
 				payload.Write(r.Bytes(l))
 			}
 		}
-	default: // folder upload items
-		for i := 0; i < 3; i++ {
+	default: // folder upload: one item (a second one would be read at an unknown alignment, where any 4 bytes may be taken as a declared size)
+		for i := 0; i < 1; i++ {
 			pathItems := r.Pick(0, 1, 2, 3, 200)
 			var p bytes.Buffer
 			for j := 0; j < min(pathItems, 3); j++ {
@@ -599,7 +599,8 @@ func hostileTransfer(r *RNG, src string, port int) (string, bool) {
 				p.WriteString(seg)
 			}
 			ds := p.Len() + 4
-			if r.Chance(30) {
+			malformed := r.Chance(30)
+			if malformed {
 				ds = r.Pick(0, 1, 3, 4, 5, 65535)
 			}
 			payload.Write(be16(ds))
@@ -607,7 +608,18 @@ func hostileTransfer(r *RNG, src string, port int) (string, bool) {
 			payload.Write(be16(pathItems))
 			payload.Write(p.Bytes())
 			if r.Bool() {
-				payload.Write(r.Bytes(r.Intn(200)))
+				// What follows a file item is read as: size(4) + flattened file object.  Declared sizes stay within the
+				// property's 1 MiB bound: after a well-formed item header the information-fork size field (bytes 40..43
+				// of the tail) is bounded; after a malformed one (alignment unknown) only zero bytes follow.
+				g := r.Bytes(r.Intn(200))
+				if malformed {
+					g = make([]byte, len(g))
+				} else if len(g) >= 44 {
+					binary.BigEndian.PutUint32(g[40:44], uint32(r.Intn(1<<20)))
+				} else {
+					g = make([]byte, len(g))
+				}
+				payload.Write(g)
 			}
 		}
 	}
